@@ -394,8 +394,9 @@ func Check(r *ev.Run, replay string) {
 		if os.Getenv("VERIF_C20_PART") == "L" {
 			return
 		}
-		// diagnostics: every program in thorough, a deterministic stride in quick
-		if r.Thorough() || k%16 == 0 {
+		// diagnostics: a deterministic stride (thorough: every 4th program with 23 replacement tokens, quick:
+		// every 16th with 9)
+		if (r.Thorough() && k%4 == 0) || k%16 == 0 {
 			diag(r, env, p, c)
 		}
 	})
@@ -403,5 +404,5 @@ func Check(r *ev.Run, replay string) {
 	r.Set("layout_variants_parsed", int(c.variants))
 	r.Set("single_token_edits", int(c.edits))
 	r.Set("diagnostics_checked", int(c.errorsSeen))
-	r.Set("rule", "L: every corpus program x every token gap x 7 insertions, line break after every comma/operator/pipe (one at a time and all at once), line/block comments at every line end (also a block comment followed by a line comment, and two block comments), blank/comment lines between statements, CRLF; oracle: position-free reflection dump of the real AST equals the original's. D: every single-token deletion and duplication (each also with CRLF line ends), substitution (23 replacement tokens) and every prefix of every corpus program (every 16th program in quick, 9 replacement tokens; quick also thins the 3-node control skeletons and the scoping family to every 16th program); oracle: error position inside the source, quoted line verbatim, message rendering does not fail. distinct = distinct diagnostic message heads")
+	r.Set("rule", "L: every corpus program x every token gap x 7 insertions, line break after every comma/operator/pipe (one at a time and all at once), line/block comments at every line end (also a block comment followed by a line comment, and two block comments), blank/comment lines between statements, CRLF; oracle: position-free reflection dump of the real AST equals the original's. D: every single-token deletion and duplication (each also with CRLF line ends), substitution (23 replacement tokens) and every prefix of every 4th corpus program (every 16th program in quick, 9 replacement tokens; quick also thins the 3-node control skeletons and the scoping family to every 16th program); oracle: error position inside the source, quoted line verbatim, message rendering does not fail. distinct = distinct diagnostic message heads")
 }
